@@ -10,6 +10,18 @@ CHECKS = {
          "Every representable date is visited as a state of the successor chain and all accessors / the four constructors are compared with an independent calendar (counter + closed forms); every small argument tuple of every year and every i32 day number is classified. The quantified domain 'all dates' is enumerated completely, which a unit test cannot do.",
          "Trusted: the reference calendar (two independent derivations cross-checked on every day). u32 arguments beyond 0..=64 are represented by an alias lattice (2^k, 2^k+v, u32::MAX).",
          "DESIGN.md §4 C01"),
+ 'C02': ("exhaustive sweep of all representable days (and all 86,400 seconds of boundary dates) plus the complete product of unit/boundary lattices, each timestamp constructor executed in lock-step with an i128 reference instant",
+         "from_timestamp is run on every representable day (several seconds of day and nanosecond fields each), every second of the day on boundary dates, and the full product of the seconds lattice (range ends, i64-nanosecond window ends, integer lattice, day-number alias classes) with sub-unit remainders for ms/us/ns; accept/refuse and every field/read-back accessor are compared with the reference; Utc.timestamp_* and SystemTime conversions are compared too.",
+         "Trusted: RefCal closed forms (cross-checked in C01). Counts between lattice points rely on euclidean division being uniform between the carries the lattice brackets.",
+         "DESIGN.md §4 C02"),
+ 'C06': ("complete product of duration boundary lattices under every constructor/operation, then closure to depth 2 over the operations, every value compared with an exact i128 nanosecond model",
+         "All pairs of a ~270-value lattice x {checked_add, checked_sub, +, -, cmp, Sum} and x every i32-lattice multiplier/divisor; every returned value is observed through all accessors, neg, abs, to_std and Display (parsed back by an independent reader); the values reached are used again as operands (depth 2), so non-lattice values are explored too. The range invariant is asserted on every value ever returned.",
+         "Trusted: i128 arithmetic. Float accessors are not judged.",
+         "DESIGN.md §4 C06"),
+ 'C19': ("exhaustive enumeration of the whole quantified domain: 7 weekdays, 12 months, 128 sets x 7 days, 128^2 set pairs, and every next/next_back history of the set iterator from all 896 initial states against a reference deque; conversions on integer lattices with alias classes; text parsing on all case variants, 1-edit mutants and short strings",
+         "Everything the statement quantifies over is finite and is enumerated completely (exhaustive: true), except the integer and string arguments of the conversions, which are covered by lattices/alias classes and by all strings up to a length bound plus all 1-edit mutants of every name.",
+         "Trusted: a [bool;7]/bitmask reference set and name tables written from the statement.",
+         "DESIGN.md §4 C19"),
 }
 hooks_commits = subprocess.run(['git','-C','/repo','log','--format=%H','--grep=^verif hooks'],capture_output=True,text=True).stdout.split()
 m = {
